@@ -84,8 +84,9 @@ func (r Result) stage1() string {
 }
 
 var (
-	reDiag    = regexp.MustCompile(`\.go:\d+:\d+: (.*)$`)
-	reScratch = regexp.MustCompile(`/var/tmp/[\w./\-]*`)
+	reDiag     = regexp.MustCompile(`\.go:\d+:\d+: (.*)$`)
+	reInnerPos = regexp.MustCompile(`[\w./\-!]+\.go:\d+(:\d+)?`)
+	reScratch  = regexp.MustCompile(`/var/tmp/[\w./\-]*`)
 )
 
 // ErrKey is a short, position-free digest of the failure: the message of the first compiler
@@ -111,9 +112,10 @@ func (r Result) ErrKey() string {
 			continue
 		}
 		if m := reDiag.FindStringSubmatch(l); m != nil {
-			if !seen[m[1]] {
-				seen[m[1]] = true
-				diags = append(diags, m[1])
+			msg := reInnerPos.ReplaceAllString(m[1], "<pos>") // "… already declared at file.go:12:3"
+			if !seen[msg] {
+				seen[msg] = true
+				diags = append(diags, msg)
 			}
 			continue
 		}
@@ -256,6 +258,10 @@ func runCaseOnce(c *Case, keep bool) Result {
 		if !res.BuildOK || res.Step == 2 {
 			break
 		}
+		if err := implementQsel(gr.Dir, c); err != "" {
+			res.BuildOK, res.BuildOut = false, err
+			break
+		}
 		res.Step = 2
 		t0 = time.Now()
 		dir := gr.Dir
@@ -284,6 +290,45 @@ func runCaseOnce(c *Case, keep bool) Result {
 		fmt.Printf("kept %s in %s\n", c.ID, gr.Dir)
 	}
 	return res
+}
+
+var reQselBody = regexp.MustCompile(`(func \(r \*queryResolver\) Qsel\([^\n]*\{\n)\tpanic\([^\n]*\n`)
+
+// implementQsel plays the user between the two generations of a naming project that has
+// "arg-selector" atoms: the body of the Qsel resolver is replaced by one that selects a field on
+// every parameter (time.V, io.V, ...), and the project is built again. The second generation must
+// carry that body over and still produce files that compile (unused-import pruning has to tell
+// the parameter `time` from the package `time`).
+func implementQsel(dir string, c *Case) string {
+	var sel []string
+	for _, a := range c.Atoms {
+		if a.Pos == "arg-selector" {
+			sel = append(sel, a.Names[0]+".V")
+		}
+	}
+	if len(sel) == 0 || c.Config.Layout.Resolver == "none" {
+		return ""
+	}
+	file := filepath.Join(dir, "resolvers/resolver.go")
+	if c.Config.Layout.Resolver == "follow-schema" {
+		file = filepath.Join(dir, "graph/naming.resolvers.go")
+	}
+	b, err := os.ReadFile(file)
+	if err != nil || !reQselBody.Match(b) {
+		probe.Cleanup()
+		common.Broken("cannot find the generated Qsel resolver of %s in %s (%v)", c.ID, file, err)
+	}
+	body := "${1}\t_ = []any{" + strings.Join(sel, ", ") + "}\n\treturn nil, nil\n"
+	if err := os.WriteFile(file, reQselBody.ReplaceAll(b, []byte(body)), 0o644); err != nil {
+		common.Broken("cannot write %s: %v", file, err)
+	}
+	if out, err := probe.GoBuild(dir, "./..."); err != nil {
+		if envFlake(out) {
+			return out
+		}
+		return "the project does not compile after implementing the Qsel resolver by hand (harness or generated signature problem):\n" + out
+	}
+	return ""
 }
 
 // runHarness builds and runs the project's harness program once and compares the response body
@@ -935,20 +980,20 @@ func bounds(tier string, cases []*Case) map[string]any {
 		cfgs[cs.Config.ID()] = true
 	}
 	return map[string]any{
-		"tier":              tier,
-		"patterns":          len(allPatterns()),
-		"positions":         append(append([]string{}, typePositions...), memberPositions...),
-		"pattern_groups":    len(patternGroups()),
-		"colliding_pairs":   len(collidingPairs()),
-		"boolean_options":   len(allOpts),
-		"layouts":           len(allLayouts()),
-		"projects_by_kind":  kinds,
-		"distinct_schemas":  len(schemas),
-		"distinct_configs":  len(cfgs),
-		"max_deviations":    2,
-		"thorough_product":  "all 72 layouts (exec x resolver x worker_limit x models{generated, autobind hand package, autobind the model package itself} x model package) x defaults + 12 pairwise-covering layouts x (exactly 1 deviation) + 2 main layouts x (exactly 2 deviations) + small feature schemas x 3 layouts + naming projects x 2 layouts",
-		"quick_selection":   "16 feature-schema configurations (0 to 2 deviations; every value of every layout dimension incl. models in the exec package) + the equal-typed method-order project + packed naming projects",
-		"feature_schema":    "4 files: objects, interfaces incl. interface-implements-interface, unions, enums, inputs (recursive, @oneOf), nested list/non-null wrappers, defaults of every kind, custom directives on all 19 locations, built-in directives, subscription, extend type/enum/union/input across files, descriptions with quotes/backticks/comment terminators",
+		"tier":             tier,
+		"patterns":         len(allPatterns()),
+		"positions":        append(append([]string{}, typePositions...), memberPositions...),
+		"pattern_groups":   len(patternGroups()),
+		"colliding_pairs":  len(collidingPairs()),
+		"boolean_options":  len(allOpts),
+		"layouts":          len(allLayouts()),
+		"projects_by_kind": kinds,
+		"distinct_schemas": len(schemas),
+		"distinct_configs": len(cfgs),
+		"max_deviations":   2,
+		"thorough_product": "all 72 layouts (exec x resolver x worker_limit x models{generated, autobind hand package, autobind the model package itself} x model package) x defaults + 12 pairwise-covering layouts x (exactly 1 deviation) + 2 main layouts x (exactly 2 deviations) + small feature schemas x 3 layouts + naming projects x 2 layouts",
+		"quick_selection":  "16 feature-schema configurations (0 to 2 deviations; every value of every layout dimension incl. models in the exec package) + the equal-typed method-order project + packed naming projects",
+		"feature_schema":   "4 files: objects, interfaces incl. interface-implements-interface, unions, enums, inputs (recursive, @oneOf), nested list/non-null wrappers, defaults of every kind, custom directives on all 19 locations, built-in directives, subscription, extend type/enum/union/input across files, descriptions with quotes/backticks/comment terminators",
 	}
 }
 
